@@ -237,13 +237,19 @@ def check_one_vs_all(ctx, chk):
 
     outs = ctx.explore(call, chk)
     rets = returns(outs)
-    if len(rets) != 1 or rets[0].unmodelled or raises(outs):
+    if not rets or any(o.unmodelled for o in rets) or raises(outs) or len(rets) > 4:
         chk.unknown("R05.3", "one_vs_all: %d return / %d raise paths %s" % (len(rets), len(raises(outs)), rets and unmodelled_text(rets[0])))
         return
-    o = rets[0]
+    # every return path (a branch on the dtype, the number of classes, ...) must deliver the same conservative binarisation
+    for k, o in enumerate(rets):
+        _one_vs_all_path(ctx, chk, o, Mx, Kx, "" if k == 0 else " [path %d: %s]" % (k + 1, pc_text(o)[:80]))
+    chk.floor("R05.3", 5, "4 conservation identities + shape")
+
+
+def _one_vs_all_path(ctx, chk, o, Mx, Kx, sfx):
     res = o.value
     if not isinstance(res, Obj) or res.attrs.get("binary") != Const(True):
-        chk.violation("R05.3", OVA, "binary-flag", show(res.attrs.get("binary")) if isinstance(res, Obj) else "not a ConfusionMatrix", "ConfusionMatrix(binary=True)", ctx.where(OVA))
+        chk.violation("R05.3", OVA, "binary-flag" + sfx, show(res.attrs.get("binary")) if isinstance(res, Obj) else "not a ConfusionMatrix", "ConfusionMatrix(binary=True)", ctx.where(OVA))
         return
     m = strip_loop(res.attrs["matrix"])
     fors = [e for e in o.events if e["kind"] == "for"]
@@ -254,7 +260,7 @@ def check_one_vs_all(ctx, chk):
     it = fors[-1]["iter"]
     n = App("len", (Kx,))
     if not (isinstance(it, App) and it.fn == "range" and len(it.args) == 1 and same(it.args[0], n)):
-        chk.violation("R05.3", OVA, "class-range", show(it), "range(number of classes)", ctx.where(OVA))
+        chk.violation("R05.3", OVA, "class-range" + sfx, show(it), "range(number of classes)", ctx.where(OVA))
     cells = {}
     for nm, ij in (("tp", (0, 0)), ("fn", (0, 1)), ("fp", (1, 0)), ("tn", (1, 1))):
         cells[nm] = libmodel.getitem(ctx.ev, m, Tup([Const(Ellipsis), j, Const(ij[0]), Const(ij[1])]))
@@ -268,7 +274,7 @@ def check_one_vs_all(ctx, chk):
     alt = {App("sum", (Mx,), [("axis", Tup([Const(-2), Const(-1)]))]): tot}
     cells = {k: subst(v, alt) for k, v in cells.items()}
     for nm in bad:
-        chk.violation("R05.3", OVA, "cell:" + nm, show(cells[nm], 300), "a value that does not depend on unwritten / uninitialised buffer content (zero-initialised buffer)", ctx.where(OVA))
+        chk.violation("R05.3", OVA, "cell:" + nm + sfx, show(cells[nm], 300), "a value that does not depend on unwritten / uninitialised buffer content (zero-initialised buffer)", ctx.where(OVA))
     if bad:
         return
     checks = [("TP_j = M[j,j]", cells["tp"], mjj), ("TP_j+FN_j = row sum_j", add(cells["tp"], cells["fn"]), row),
@@ -276,16 +282,15 @@ def check_one_vs_all(ctx, chk):
               ("TP+FN+FP+TN = total", add(add(cells["tp"], cells["fn"]), add(cells["fp"], cells["tn"])), tot)]
     for label, got, want in checks:
         if same(got, want):
-            chk.hold("R05.3", label, "%s  (= %s)" % (label, show(got, 160)))
+            chk.hold("R05.3", label + sfx, "%s  (= %s)" % (label, show(got, 160)))
         else:
-            chk.violation("R05.3", OVA, label.split(" =")[0], show(got, 300), show(want, 200), ctx.where(OVA))
+            chk.violation("R05.3", OVA, label.split(" =")[0] + sfx, show(got, 300), show(want, 200), ctx.where(OVA))
     # buffer shape (*dims, N, 2, 2)
     sh = libmodel.shape_of(m)
     if sh is not None and len(sh.items) >= 3 and sh.items[-1] == Const(2) and sh.items[-2] == Const(2) and same(sh.items[-3], n):
-        chk.hold("R05.3", "shape", "buffer shape %s" % show(sh, 160))
+        chk.hold("R05.3", "shape" + sfx, "buffer shape %s" % show(sh, 160))
     else:
-        chk.violation("R05.3", OVA, "shape", show(sh, 160) if sh is not None else "unknown", "(*leading dims, N, 2, 2)", ctx.where(OVA))
-    chk.floor("R05.3", 5, "4 conservation identities + shape")
+        chk.violation("R05.3", OVA, "shape" + sfx, show(sh, 160) if sh is not None else "unknown", "(*leading dims, N, 2, 2)", ctx.where(OVA))
 
 
 def _chain(a):
